@@ -359,9 +359,20 @@ def linkdef_lines(b):
     return text.split('\n')
 
 
-def to_markdown(blocks, o):
+_THEMATIC = __import__('re').compile(r'^ {0,3}([-_*])[ \t]*(\1[ \t]*){2,}$')
+_PREFIX = __import__('re').compile(r'^(?:> ?| )*')
+
+
+def to_markdown(blocks, o, strict=False):
+    """strict: raise Unwritable if a written line reads as a thematic break although no thematic break was written there
+    (nested empty list items such as '- - -': the spec resolves the coincidence in favour of the break)"""
     rec = []
     lines = write_doc(blocks, rec, o, 0, True)
+    if strict:
+        hr_lines = {ln for n, ln in rec if n.kind == 'hr'} | {ln + len(n.lines) for n, ln in rec if n.kind == 'setext'}
+        for i, l in enumerate(lines):
+            if i not in hr_lines and l and _THEMATIC.match(_PREFIX.sub('', l)):
+                raise Unwritable('line %d reads as a thematic break: %r' % (i + 1, l))
     text = '\n'.join(lines)
     if o['trailing_newline'] or not lines:
         text += '\n'
